@@ -116,7 +116,17 @@ pub fn replay(path: &str) -> i32 {
                 let fill = int_field(&s, "fill").unwrap_or(0) as usize;
                 println!("unarmor({:?}, {})", crate::json::esc_bytes(&data), fill);
                 println!("   reference: {:?}", armor::unarmor_ref(&data, fill).map(|v| crate::json::hex_str(&v)));
-                let got = mon::call_unarmor(&data, fill);
+                // the run that recorded this placed the input at some offset 0..7 from an aligned
+                // address: show every placement whose result differs from the first
+                let show = |g: &Result<Option<Vec<u8>>, mon::PanicInfo>| format!("{:?}", g.as_ref().map(|o| o.as_ref().map(|v| crate::json::hex_str(v))).map_err(|p| format!("PANIC '{}' at {}", p.msg, p.loc)));
+                let first = show(&mon::call_unarmor_at(&data, fill, 0));
+                for off in 1..8 {
+                    let g = show(&mon::call_unarmor_at(&data, fill, off));
+                    if g != first {
+                        println!("   observed with the input {} byte(s) past an aligned address: {}", off, g);
+                    }
+                }
+                let got = mon::call_unarmor_at(&data, fill, 0);
                 println!("   observed : {:?}", got.as_ref().map(|o| o.as_ref().map(|v| crate::json::hex_str(v))).map_err(|p| format!("PANIC '{}' at {}", p.msg, p.loc)));
                 match got {
                     Ok(Some(b)) => {
